@@ -1,6 +1,9 @@
 """Solver peer seam (S4): the library calls `pulp.PULP_CBC_CMD(msg=False)`; the attribute is looked up on the pulp
 module at call time, so a factory installed there can hand out a solver whose k-th invocation of the run fails.
-Default (no fault armed): pure delegation to the real CBC binary."""
+Default (no fault armed): pure delegation to the real CBC binary. When the stand-in `cplex` package is the one
+importable (environment "present"), the same factory also owns its FAULT_HOOK: solves of both peers are counted
+together and the k-th one fails, as CplexSolverError (mode "raise") or as a solve that ends without any solution
+(mode "notsolved")."""
 import pulp
 from pulp.apis import PULP_CBC_CMD as REAL_CBC
 
@@ -36,9 +39,30 @@ class FaultySolverFactory:
         solver.actualSolve = actual_solve
         return solver
 
+    def _cplex_hook(self, prob):
+        self.calls += 1
+        if self.armed and self.fail_at is not None and self.calls - 1 == self.fail_at:
+            self.fired += 1
+            if self.on_fire:
+                self.on_fire("cplex_" + self.mode)
+            if self.mode == "raise":
+                raise self._cplex.exceptions.CplexSolverError(
+                    "simulated: CPLEX Error  1016: Community Edition. Problem size limits exceeded.")
+            prob._forced_no_solution = True
+
     def install(self):
         self._saved = pulp.PULP_CBC_CMD
         pulp.PULP_CBC_CMD = self
+        self._cplex = None
+        try:
+            import cplex
+            if hasattr(cplex, "FAULT_HOOK") and hasattr(cplex, "STATS"):  # the stand-in, never a real CPLEX
+                self._cplex = cplex
+                cplex.FAULT_HOOK = self._cplex_hook
+        except ImportError:
+            pass
 
     def uninstall(self):
         pulp.PULP_CBC_CMD = self._saved
+        if self._cplex is not None:
+            self._cplex.FAULT_HOOK = None
